@@ -12,7 +12,8 @@
 From Coq Require Import ZArith NArith List Bool String.
 From AGH Require Import Base.Run Model.QLogFile Model.QLog Model.QLogCodec Proofs.QLog Proofs.QLogCursor Proofs.QLogCodec
   Proofs.QLogCodecScan Proofs.QLogCodecDec Proofs.QLogCodecLoc Proofs.QLogFold Proofs.QLogCodecAll
-  Model.QLogServe Proofs.QLogServe Model.QLogRotate Proofs.QLogRotate Model.QLogClients Proofs.QLogClients.
+  Model.QLogServe Proofs.QLogServe Model.QLogRotate Proofs.QLogRotate Model.QLogClients Proofs.QLogClients
+  Proofs.QLogOrder.
 From AGH Require Model.ClientIndex Proofs.ClientIndex.
 Import ListNotations.
 Local Open Scope Z_scope.
@@ -691,3 +692,165 @@ Theorem C07_status_inclusions : forall r f,
   (forall code, status_match code r f = true -> status_match 0 r f = true).
 Proof. exact status_inclusions. Qed.
 Print Assumptions C07_status_inclusions.
+
+(** ** Push order and stamp order (round 5; Proofs/QLogOrder.v)
+
+    The theorems above speak of histories whose recorded entries carry
+    strictly increasing stamps IN PUSH ORDER ([hist_ok]).  That is not an
+    invariant of the operations by themselves: the stamp of an [OAdd] is an
+    input.  Since 3418b11 [Add] reads the clock after it has locked the buffer
+    ([stamp_ops] / [run_locked], Model/QLog.v), so with clock readings that
+    strictly rise the hypothesis holds whatever the callers do ... *)
+Theorem C07_stamp_under_lock_orders : forall me ops clock lo,
+  rising lo clock -> (length (adds ops) <= length clock)%nat ->
+  Forall (len_ok me) (adds ops) -> hist_ok me lo (stamp_ops clock ops).
+Proof. exact stamp_ops_ok. Qed.
+Print Assumptions C07_stamp_under_lock_orders.
+
+Theorem C07_locked_history_wf : forall me c clock ops lo,
+  rising lo clock -> (length (adds ops) <= length clock)%nat -> Forall (len_ok me) (adds ops) ->
+  wf me (run_locked c clock ops).
+Proof. exact locked_wf. Qed.
+Print Assumptions C07_locked_history_wf.
+
+(** ... and the cursor chain partitions the visible log, for ANY stamps the
+    callers of Add brought along and any interleaving of their calls. *)
+Theorem C07_locked_cursor_paging : forall me bf c clock ops lo p,
+  0 < me <= bf -> 0 <= lo -> rising lo clock -> (length (adds ops) <= length clock)%nat ->
+  Forall (len_ok me) (adds ops) -> hist_bytes ops < 2 ^ 63 ->
+  p_older p = None -> p_offset p = 0 -> 1 <= p_limit p ->
+  forall fuel, (length (flatv (run_locked c clock ops)) < fuel)%nat ->
+  exists pages, chain me bf (run_locked c clock ops) p fuel None = Some pages /\
+    concat pages = vis (run_locked c clock ops) p /\ NoDup (vis (run_locked c clock ops) p) /\
+    Forall (fun pg => lenZ pg <= p_limit p) pages.
+Proof. exact locked_cursor_paging. Qed.
+Print Assumptions C07_locked_cursor_paging.
+
+(** Premises satisfiable: the interleaving old / late takes its stamp / whole
+    Add of newest / late is pushed, with the clock read under the lock. *)
+Theorem C07_locked_example :
+  let s := run_locked wit_cfg [11; 12; 13] wit_ops in
+  map (fun e => (e_id e, e_time e)) (flat s) = [(1%N, 11); (2%N, 12); (3%N, 13)] /\
+  option_map (map (map e_id)) (chain max_entry_size buffer_size s (Build_params None 1 0 0 []) 4 None) =
+    Some [[3]; [2]; [1]; []]%N.
+Proof. exact locked_example. Qed.
+Print Assumptions C07_locked_example.
+
+(** The code as it was before 3418b11 (stamp taken in newLogEntry, outside the
+    lock: push order independent of stamp order).  REFUTED, with pairwise
+    distinct positive stamps: recorded 1 (10), 2 (30), 3 (20, pushed last).
+    Cursor pages of one from memory return 3, 1; entry 2 is never returned. *)
+Theorem C07_cursor_paging_needs_stamp_order_refuted :
+  exists c ops p fuel pages e,
+    hist_distinct max_entry_size ops /\ p_older p = None /\ p_offset p = 0 /\ 1 <= p_limit p /\
+    (length (flatv (run c ops)) < fuel)%nat /\
+    chain max_entry_size buffer_size (run c ops) p fuel None = Some pages /\
+    In e (vis (run c ops) p) /\ ~ In e (concat pages).
+Proof. exact cursor_paging_any_order_refuted. Qed.
+Print Assumptions C07_cursor_paging_needs_stamp_order_refuted.
+
+(** After the flush (file lines 10, 30, 20), pages of two: 2 3, then the end
+    of the log; 1 is never returned (the timestamp bisection of C20 runs over
+    stamps that are not sorted). *)
+Theorem C07_cursor_paging_file_needs_stamp_order_refuted :
+  exists c ops p fuel pages e,
+    hist_distinct max_entry_size ops /\ p_older p = None /\ p_offset p = 0 /\ 1 <= p_limit p /\
+    buf (run c ops) = [] /\
+    (length (flatv (run c ops)) < fuel)%nat /\
+    chain max_entry_size buffer_size (run c ops) p fuel None = Some pages /\
+    In e (vis (run c ops) p) /\ ~ In e (concat pages).
+Proof. exact cursor_paging_file_any_order_refuted. Qed.
+Print Assumptions C07_cursor_paging_file_needs_stamp_order_refuted.
+
+(** Offset pages of one at offsets 0, 1, 2 return 3, 3, 1 (the newest-first
+    sequence is 2 3 1): the cut to offset+limit runs before the sort. *)
+Theorem C07_offset_paging_needs_stamp_order_refuted :
+  exists c ops, hist_distinct max_entry_size ops /\
+    map (fun off => match search max_entry_size buffer_size (run c ops) (Build_params None 1 off 0 []) with
+                    | Ok es _ => map e_id es | _ => [] end) [0; 1; 2] = [[3]; [3]; [1]]%N /\
+    map e_id (sort_desc (vis (run c ops) (Build_params None 1 0 0 []))) = [2; 3; 1]%N.
+Proof. exact offset_paging_any_order_refuted. Qed.
+Print Assumptions C07_offset_paging_needs_stamp_order_refuted.
+
+(** The assumption that is left: two clock readings under the lock are never
+    equal (and the clock does not step back).  REFUTED without it: stamps 10,
+    20, 20, pages of one return 3, 1; "older than" is strict. *)
+Theorem C07_cursor_paging_equal_stamps_refuted :
+  exists c ops p fuel pages e,
+    p_older p = None /\ p_offset p = 0 /\ 1 <= p_limit p /\
+    (length (flatv (run c ops)) < fuel)%nat /\
+    chain max_entry_size buffer_size (run c ops) p fuel None = Some pages /\
+    In e (vis (run c ops) p) /\ ~ In e (concat pages).
+Proof. exact cursor_paging_equal_stamps_refuted. Qed.
+Print Assumptions C07_cursor_paging_equal_stamps_refuted.
+
+Theorem C07_stamp_order_not_invariant_refuted :
+  exists c ops, hist_distinct max_entry_size ops /\ ~ wf max_entry_size (run c ops).
+Proof. exact stamp_order_not_invariant_refuted. Qed.
+Print Assumptions C07_stamp_order_not_invariant_refuted.
+
+(** What holds for EVERY state, sorted or not (no well-formedness premise on
+    the stamps).  A request without cursor returns: cut to offset+limit in
+    reverse push order, sort, drop the offset ... *)
+Theorem C07_search_any_push_order : forall me bf s p,
+  0 < me <= bf -> Forall (len_ok me) (on_disk s) -> p_older p = None ->
+  0 < p_limit p -> 0 <= p_offset p ->
+  (p_scan p <= 0 \/ lenZ (on_disk s) <= p_scan p) ->
+  exists o, search me bf s p = Ok (page_any s p) o.
+Proof. exact search_any_order. Qed.
+Print Assumptions C07_search_any_push_order.
+
+(** ... so the unpaged listing holds every visible entry exactly once, newest
+    first, whatever the push order. *)
+Theorem C07_listing_any_push_order : forall me bf s p,
+  0 < me <= bf -> Forall (len_ok me) (on_disk s) -> p_older p = None -> p_offset p = 0 ->
+  0 < p_limit p -> lenZ (flatv s) <= p_limit p ->
+  (p_scan p <= 0 \/ lenZ (on_disk s) <= p_scan p) ->
+  exists o, search me bf s p = Ok (sort_desc (vis s p)) o /\
+            Permutation.Permutation (sort_desc (vis s p)) (vis s p) /\ desc (sort_desc (vis s p)).
+Proof. exact listing_any_order. Qed.
+Print Assumptions C07_listing_any_push_order.
+
+(** Every page of every request is newest-first, and the cursor it hands out
+    is the stamp of its oldest entry. *)
+Theorem C07_page_newest_first_any_push_order : forall me bf s p es o,
+  search me bf s p = Ok es o ->
+  desc es /\ (es <> [] -> o = e_time (last es dflt) /\ forall y, In y es -> o <= e_time y).
+Proof. exact page_desc. Qed.
+Print Assumptions C07_page_newest_first_any_push_order.
+
+(** The clause seeded C07-J breaks: a page served from memory only (no file)
+    is the sorted cut of the buffer, newest-first whatever the push order. *)
+Theorem C07_memory_page_sorted_any_push_order : forall me bf s p,
+  cur s = None -> rot s = None -> 0 < p_limit p -> 0 <= p_offset p ->
+  exists o, search me bf s p =
+              Ok (skipnZ (p_offset p) (sort_desc (firstnZ (p_offset p + p_limit p) (search_memory s p)))) o /\
+            desc (skipnZ (p_offset p) (sort_desc (firstnZ (p_offset p + p_limit p) (search_memory s p)))).
+Proof. exact memory_page_sorted. Qed.
+Print Assumptions C07_memory_page_sorted_any_push_order.
+
+Theorem C07_memory_page_sort_matters :
+  let c := Build_config true true 100 [] [] in
+  let e i t := Build_entry i t 100 [97%N] [49%N] [] 0 false in
+  let s := run c [OAdd (e 1%N 10); OAdd (e 2%N 30); OAdd (e 3%N 20)] in
+  map e_id (search_memory s (Build_params None 5 0 0 [])) = [3; 2; 1]%N /\
+  search max_entry_size buffer_size s (Build_params None 5 0 0 []) = Ok [e 2%N 30; e 3%N 20; e 1%N 10] 10.
+Proof. exact memory_page_sort_matters. Qed.
+Print Assumptions C07_memory_page_sort_matters.
+
+(** Every entry of a page is strictly older than the request's cursor ... *)
+Theorem C07_page_under_cursor_any_push_order : forall me bf s p es o c,
+  search me bf s p = Ok es o -> p_older p = Some c -> forall y, In y es -> e_time y < c.
+Proof. exact page_under_cursor. Qed.
+Print Assumptions C07_page_under_cursor_any_push_order.
+
+(** ... hence a client that follows the cursors never gets an entry twice and
+    gets the pages in newest-first order as a whole, whatever the push order
+    and the state of the files (as long as no page before the last is empty,
+    which only a scan window cut short can cause).  Gaps are what stamp order
+    is needed for. *)
+Theorem C07_cursor_pages_never_repeat_any_push_order : forall me bf s p fuel c pages,
+  chain me bf s p fuel c = Some pages -> Forall (fun pg => pg <> []) (removelast pages) ->
+  (forall pg, In pg pages -> forall y, In y pg -> older_b c y = true) /\ sep pages.
+Proof. exact chain_sep. Qed.
+Print Assumptions C07_cursor_pages_never_repeat_any_push_order.
